@@ -317,8 +317,14 @@ static void case_consistent_text(const std::string& name, const std::string& tex
   bool huge = IS->huge_abs_terms(); sx::check_true(!huge, tag + ": no observation has an outlying absolute term (none is removed)", "");
   if (huge) { sx::reached("net3d-consistent"); return; }
   R3 r = run3d(b); sx::check_true(r.ok, tag + ": adjusted", r.why); if (!r.ok) return;
-  if (iterate) {     // as gama-local's main(): further linearisations while the program's own test asks for them
-    IS->refine_adjustment(); const GNU_gama::local::Vec& x = IS->solve(); r.xv.clear(); for (int i = 1; i <= IS->unknowns_count(); i++) r.xv.push_back(x(i)); }
+  if (iterate) {     // gama-local's main() goes on linearising while the program's own test (TestLinearization) asks for it.  The second
+    // linearisation cannot be followed exactly (its constants are quotients of radicals the solver does not decide), so what is checked is
+    // the decision itself: while the adjusted coordinates are still more than 0.01 mm from the generating ones, the test must ask for more
+    bool asks = GNU_gama::local::TestLinearization(IS); bool off = false;
+    for (auto& t : truth) { const LocalPoint& lp = IS->PD[PointID(t.id)]; if (!lp.active() || !t.has_xy || !lp.free_xy() || !lp.index_x()) continue;
+      double ex = sx::numeric0(lp.x() + r.xv[lp.index_x() - 1] / sx::rat(1000) - Real(t.x)), ey = sx::numeric0(lp.y() + r.xv[lp.index_y() - 1] / sx::rat(1000) - Real(t.y)); if (ex * ex + ey * ey > (sx::f64)1e-10) off = true; }
+    sx::check_true(asks || !off, tag + ": the linearisation test asks for another iteration while the adjusted coordinates are off", asks ? "" : "adjusted coordinates more than 0.01 mm off, no iteration requested");
+    if (asks) { sx::reached("net3d-consistent"); return; } }
   if (all_obs) sx::check_true(r.m == (int)b.obs.size(), tag + ": every observation takes part", std::to_string(r.m) + " of " + std::to_string(b.obs.size()));
   sx::check_true(IS->removed_points.empty(), tag + ": no point removed", "");
   for (auto& t : truth) { const LocalPoint& lp = IS->PD[PointID(t.id)]; if (!lp.active()) continue;
